@@ -164,7 +164,7 @@ pub fn stub_half(x: &mut [u32], z: &mut [u32], k: &mut [u32]) {
     }
 }
 
-//@ harness name=cast5_new_w prop=C09,C20 tier=quick bits=1288 stub=1 est=15 desc="W: Cast5::new_from_slice(key[..len]), len symbolic 0..=17: Err exactly outside 5..=16; otherwise small_key == (len <= 10) [12 rounds up to 80 bits], key right-padded with zero bytes, the two half schedules chained on the running x, masking = K1..K16, rotate = K17..K32 & 31; half schedule uninterpreted per call index (shared with the oracle)"
+//@ harness name=cast5_new_w prop=C09,C20 tier=quick bits=1288 stub=1 est=20 desc="W: Cast5::new_from_slice(key[..len]), len symbolic 0..=17: Err exactly outside 5..=16; otherwise small_key == (len <= 10) [12 rounds up to 80 bits], key right-padded with zero bytes, the two half schedules chained on the running x, masking = K1..K16, rotate = K17..K32 & 31; half schedule uninterpreted per call index (shared with the oracle)"
 verif_harness! {
     name: cast5_new_w,
     bytes: 210,
